@@ -90,6 +90,10 @@ func loadEngine(repo, pkgPath string, overlay map[string][]byte) (*Engine, error
 		e.allowFns["github.com/go-openapi/swag."+t] = true
 		e.allowFns["github.com/go-openapi/swag."+t+"Value"] = true
 	}
+	for _, t := range []string{"Int8", "Int16", "Int32", "Int64", "Uint8", "Uint16", "Uint32", "Uint64"} {
+		e.allowFns["github.com/go-openapi/swag.Convert"+t] = true
+	}
+	e.allowFns["github.com/go-openapi/swag.SplitByFormat"] = true
 	return e, nil
 }
 
@@ -126,6 +130,19 @@ func (e *Engine) global(x *Exec, g *ssa.Global) *Cell {
 	e.checkInit(g.Pkg)
 	if c == nil {
 		panic(unsupported("global without cell: " + g.String()))
+	}
+	if x != nil && !nested && c.Frozen {
+		// after initialisation every path works on its own copy of a global variable's cell
+		// (aggregates reachable from it stay shared and read-only)
+		if x.gshadow == nil {
+			x.gshadow = map[*ssa.Global]*Cell{}
+		}
+		sh := x.gshadow[g]
+		if sh == nil {
+			sh = &Cell{V: c.V, Name: c.Name}
+			x.gshadow[g] = sh
+		}
+		return sh
 	}
 	return c
 }
